@@ -800,6 +800,7 @@ class Variogram(object):
         else:
             self._bins = bin_func
             self._maxlag = max(bin_func)
+            self._maxlag_passed_value = self._maxlag
             self._n_lags = sum(1 for e in bin_func)
 
         self.cof, self.cov = None, None
